@@ -23,7 +23,8 @@ import (
 // C19 — one-shot runs process every line once and then terminate.
 //
 //   os <gomaxprocs> <prog kinds, e.g. w,g,s> <file spec, e.g. 5/1,0/1,3/0>
-//   program kinds: w = order witness, g = witness plus a global gauge, s = syntax error (never loads)
+//   program kinds: w = order witness, g = witness plus a global gauge, s = syntax error (never loads),
+//   t / e = the witness ending every line in a final `stop` (at top level / in a trailing else)
 //   file spec: <number of lines>/<1 if the last line ends in a newline>; line k of file i is "f<i> <k>"
 // OBS: termination, per loaded program the witness metrics per file, lines_total and
 // log_lines_total as moved by this run.
@@ -94,6 +95,12 @@ func c19Run(r *runCtx, id string, f []string) {
 		switch k {
 		case "g":
 			src = c19Global
+		case "t":
+			// the same witness, ending the line explicitly: the program's last instruction is a stop
+			src = c19Witness + "stop\n"
+		case "e":
+			// ... or ending it in the trailing else branch of a condition that the lines do not meet
+			src = c19Witness + "/^never$/ {\n} else {\n  stop\n}\n"
 		case "s":
 			src = "counter broken by\n"
 		}
@@ -260,7 +267,7 @@ func c19Run(r *runCtx, id string, f []string) {
 func init() {
 	props["C19"] = &propImpl{
 		gen: func(g *genCtx) {
-			progSets := []string{"w", "w,w", "w,g,w", "g", "w,s", "s,g,w"}
+			progSets := []string{"w", "w,w", "w,g,w", "g", "w,s", "s,g,w", "t", "e,w", "g,t,e"}
 			// (n/2 stands for something the pattern matches that is no log: a unix socket)
 			fileSets := []string{"3/1", "3/0", "0/1", "5/1,4/0", "0/1,2/1,0/0", "7/0,1/1,6/1", "1/0", "200/1,150/0", "3/1,0/2,4/0,2/1", "0/2,5/1"}
 			for _, ps := range progSets {
